@@ -1,10 +1,235 @@
 import HvsrVerif.Drv.Loop
-/-! driver commands of C10 (stateless: one request line in, one answer line out) -/
+import HvsrVerif.Model.Rec
+/-! driver commands of C10 and C18 (stateless: one request line in, one answer line out) -/
 namespace HV.Drv
-open HV.Proto
+open HV.Proto HV.Split HV.RecM
+
+namespace C10
+
+def fErr {β} (f : β → String) : Except String β → String
+  | .ok v => "ok " ++ f v
+  | .error e => "err " ++ e
+
+/-- `intervals Lnum Lden FSnum FSden` → exact `⌊L·fs⌋` -/
+def cIntervals : P String := do
+  let ln ← int; let ld ← nat; let fn ← int; let fd ← nat
+  if ld = 0 ∨ fd = 0 then pure "err den" else
+  pure s!"ok {intervalsExact (mkRat ln ld) (mkRat fn fd)}"
+
+/-- `kcode L dt` → `int(n_intervals)` by the code's float recipe -/
+def cKcode : P String := do
+  let L ← flt; let dt ← flt
+  pure s!"ok {intervalsCode L dt}"
+
+def winDigest (w : List Nat) : String :=
+  s!"{w.headD 0} {w.length} {w.getLastD 0} {w.foldl (· + ·) 0}"
+
+/-- `split k n` on the ramp `0..n-1` → `ok nW tail (first len last sum)*` -/
+def cSplit : P String := do
+  let k ← int; let n ← nat
+  pure (fErr (fun ws => " ".intercalate
+      (toString ws.length :: toString (tailLen k.toNat n) :: ws.map winDigest))
+    (splitInt k (List.range n)))
+
+/-- `trim n dt t0 t1` → `ok s e` -/
+def cTrim : P String := do
+  let n ← nat; let dt ← flt; let t0 ← flt; let t1 ← flt
+  pure (fErr (fun (p : Nat × Nat) => s!"{p.1} {p.2}") (trimIdx n dt t0 t1))
+
+/-- `degnorm d` -/
+def cDegnorm : P String := do
+  let d ← flt
+  pure s!"ok {fF (degNorm d)}"
+
+/-- `detrend constant|linear xs*` -/
+def cDetrend : P String := do
+  let m ← tok; let xs ← vec
+  match m with
+  | "constant" => pure ("ok " ++ fVec (detrendConst xs))
+  | "linear" => pure ("ok " ++ fVec (detrendLinear xs))
+  | _ => pure "err mode"
+
+def pOptInt : P (Option Int) := do
+  match (← peek?) with
+  | some "none" => let _ ← tok; pure none
+  | _ => let k ← int; pure (some k)
+
+def fTraceOp : TraceOp → String
+  | .orient => "orient" | .filter => "filter" | .split => "split" | .detrend => "detrend"
+
+/-- `splitL L dt n` → `ok k nW tail (first len last sum)*` with `k = intervalsCode L dt` -/
+def cSplitL : P String := do
+  let L ← flt; let dt ← flt; let n ← nat
+  let k := intervalsCode L dt
+  pure (fErr (fun ws => " ".intercalate
+      (toString k :: toString ws.length :: toString (tailLen k.toNat n) :: ws.map winDigest))
+    (splitInt k (List.range n)))
+
+/-- `trace doOrient L|none dt doDetrend n` → `ok m (op n)*` -/
+def cTrace : P String := do
+  let o ← bool; let L ← optFlt; let dt ← flt; let d ← bool; let n ← nat
+  let k := L.map (fun L => intervalsCode L dt)
+  pure (fErr (fun tr => " ".intercalate (toString tr.length :: tr.map (fun p => s!"{fTraceOp p.1} {p.2}")))
+    (expectedTrace o k d n))
+
+/-! JSON on the wire (prefix notation): `N` | `T` | `F` | `n hex` | `s hexutf8` | `a len item*` | `o len (hexutf8 item)*` -/
+
+def hexByte (b : UInt8) : String := String.ofList [hexChar (b.toNat / 16), hexChar (b.toNat % 16)]
+def encStr (s : String) : String := "x" ++ String.join (s.toUTF8.toList.map hexByte)
+
+def decStr (t : String) : Except String String :=
+  match t.toList with
+  | 'x' :: cs =>
+    let rec go : List Char → List UInt8 → Option (List UInt8)
+      | [], acc => some acc.reverse
+      | [_], _ => none
+      | a :: b :: rest, acc =>
+        match hexDigit a, hexDigit b with
+        | some x, some y => go rest ((x * 16 + y).toUInt8 :: acc)
+        | _, _ => none
+    match go cs [] with
+    | some bs =>
+      match String.fromUTF8? (ByteArray.mk bs.toArray) with
+      | some s => .ok s
+      | none => .error "utf8"
+    | none => .error ("str:" ++ t)
+  | _ => .error ("str:" ++ t)
+
+def pStr : P String := do
+  match decStr (← tok) with
+  | .ok s => pure s
+  | .error e => throw e
+
+partial def pJson : P (Json Float) := do
+  let t ← tok
+  match t with
+  | "N" => pure .null
+  | "T" => pure (.bool true)
+  | "F" => pure (.bool false)
+  | "n" => pure (.num (← flt))
+  | "s" => pure (.str (← pStr))
+  | "a" =>
+    let n ← nat
+    let mut out : Array (Json Float) := #[]
+    for _ in [0:n] do out := out.push (← pJson)
+    pure (.arr out.toList)
+  | "o" =>
+    let n ← nat
+    let mut out : Array (String × Json Float) := #[]
+    for _ in [0:n] do
+      let k ← pStr
+      let v ← pJson
+      out := out.push (k, v)
+    pure (.obj out.toList)
+  | _ => throw ("json:" ++ t)
+
+partial def fJson : Json Float → String
+  | .null => "N"
+  | .bool true => "T"
+  | .bool false => "F"
+  | .num x => "n " ++ fF x
+  | .str s => "s " ++ encStr s
+  | .arr l => " ".intercalate ("a" :: toString l.length :: l.map fJson)
+  | .obj kv => " ".intercalate ("o" :: toString kv.length :: kv.map (fun p => encStr p.1 ++ " " ++ fJson p.2))
+
+def pDict : P (Dict Float) := do
+  match (← pJson) with
+  | .obj kv => pure kv
+  | _ => throw "json:notobj"
+
+def pOptNat : P (Option Nat) := do
+  match (← peek?) with
+  | some "none" => let _ ← tok; pure none
+  | _ => let k ← nat; pure (some k)
+
+/-- one history operation; opaque transformers arrive as `xf key val` followed by the samples the
+implementation produced (`xform key val id` then `setSamples`) -/
+def pOps : P (List (Op Float)) := do
+  let t ← tok
+  match t with
+  | "trim" => let a ← flt; let b ← flt; pure [.trim a b]
+  | "det" =>
+    let m ← tok
+    match m with
+    | "constant" => pure [detrendOp m detrendConst]
+    | "linear" => pure [detrendOp m detrendLinear]
+    | _ => throw "detmode"
+  | "xf" =>
+    let k ← pStr; let v ← pJson
+    let a ← vec; let b ← vec; let c ← vec
+    pure [.xform k v (fun x => x), .setSamples a b c]
+  | "set" => let a ← vec; let b ← vec; let c ← vec; pure [.setSamples a b c]
+  | "orient" => let d ← flt; pure [.orient d]
+  | "split" => let L ← flt; let j ← pOptNat; pure [.split L j]
+  | "copy" => pure [.copy]
+  | "sl" => pure [.saveLoad]
+  | _ => throw ("op:" ++ t)
+
+def fState (r : Rec Float) : String :=
+  s!"{fVec r.ns} {fVec r.ew} {fVec r.vt} {fF r.dt} {fF r.deg} {fJson (.obj r.md)}"
+
+/-- `rec.hist dt deg ns* ew* vt* meta nops op*` →
+`ok nops (err|-  n  deg)*  ns* ew* vt* dt deg meta` -/
+def cRecHist : P String := do
+  let dt ← flt; let deg ← flt
+  let ns ← vec; let ew ← vec; let vt ← vec
+  let md ← pDict
+  let nops ← nat
+  match mkRec ns ew vt dt deg md with
+  | .error e => pure ("err " ++ e)
+  | .ok r0 =>
+    let mut r := r0
+    let mut out : Array String := #[]
+    for _ in [0:nops] do
+      let ops ← pOps
+      let mut err : Option String := none
+      for op in ops do
+        let (r', e) := step op r
+        r := r'
+        if e.isSome then err := e
+      out := out.push s!"{err.getD "-"} {r.ns.length} {fF r.deg}"
+    pure (" ".intercalate (["ok", toString nops] ++ out.toList ++ [fState r]))
+
+/-- `alias n k s e` → sharing predicted by the location model for a recording with `n` samples:
+`ok ts ctor(3) copy(3) splitAny trimView  writeCopyVisible writeSrcVisible` (0/1 flags) -/
+def cAlias : P String := do
+  let n ← nat; let k ← nat; let s ← nat; let e ← nat
+  let xs : List Float := (List.range n).map (fun i => Float.ofNat i)
+  let h0 : Heap Float := ⟨[]⟩
+  let (h1, a) := h0.alloc xs
+  let (h2, b) := h1.alloc xs
+  let (h3, c) := h2.alloc xs
+  let src : Rec3Ref := ⟨a, b, c⟩
+  let (h4, t) := tsCopy h3 a
+  let (h5, r1) := ctor3 h4 src
+  let (h6, r2) := copy3 h5 src
+  let (h7, ws) := splitRefs h6 a (k + 1) (nWindows k n) 0
+  let tv := trimRef a s e
+  let sh := fun (x y : Arr) => fB (sharesMemory x y)
+  let all3 := fun (r : Rec3Ref) =>
+    fB ([src.ns, src.ew, src.vt].any (fun x => [r.ns, r.ew, r.vt].any (fun y => sharesMemory x y)))
+  -- writes: through the copy, then through the source
+  let hw := h7.write t 0 (-1.0)
+  let vis1 := fB (hw.read a != h7.read a)
+  let hw2 := h7.write a 0 (-1.0)
+  let vis2 := fB (hw2.read t != h7.read t || ws.any (fun w => hw2.read w != h7.read w))
+  pure (" ".intercalate ["ok", sh a t, all3 r1, all3 r2, fB (ws.any (fun w => sharesMemory a w)),
+    toString ws.length, sh a tv, vis1, vis2])
+
+end C10
 
 def opsC10 (op : String) : Option (P String) :=
   match op with
+  | "intervals" => some C10.cIntervals
+  | "kcode" => some C10.cKcode
+  | "split" => some C10.cSplit
+  | "splitL" => some C10.cSplitL
+  | "trim" => some C10.cTrim
+  | "degnorm" => some C10.cDegnorm
+  | "detrend" => some C10.cDetrend
+  | "trace" => some C10.cTrace
+  | "rec.hist" => some C10.cRecHist
+  | "alias" => some C10.cAlias
   | _ => none
 
 end HV.Drv
